@@ -1116,6 +1116,16 @@ func (sc *serverConn) startFrameWrite(wm frameWriteMsg) {
 		case stateClosed:
 			if st.sentReset || st.gotReset {
 				// Skip this frame.
+				if wd, ok := wm.write.(*writeData); ok && len(wd.p) > 0 {
+					// The write scheduler already took the frame's
+					// flow-control tokens from the stream and the
+					// connection (writeScheduler.takeFrom), but nothing
+					// will be sent. The stream is gone; give the
+					// connection-level tokens back, or the server's
+					// view of the peer's connection window would shrink
+					// for good with every write to a reset stream.
+					sc.flow.add(int32(len(wd.p)))
+				}
 				sc.scheduleFrameWrite()
 				return
 			}
